@@ -55,6 +55,7 @@ mpf_urandomb (mpf_t rop, gmp_randstate_t rstate, mp_bitcnt_t nbits)
       nlimbs--;
       exp--;
     }
-  EXP (rop) = exp;
+  /* a zero result has exponent 0 like every other mpf zero */
+  EXP (rop) = nlimbs == 0 ? 0 : exp;
   SIZ (rop) = nlimbs;
 }
